@@ -227,7 +227,7 @@ MS5 = ['gS', 'gP', 'gA', 'gV', 'gVt', 'lA', 'lV', 'lVt', 'lT', 'lTt', 'g1', 'l1'
 
 
 def ms5_case(rng, i, tmp, ctx):
-    idxs = sorted(rng.choice([1, 2, 3, 7], size=int(rng.integers(1, 4)), replace=False).tolist())      # single digits: the reader orders r10 before r2
+    idxs = sorted(rng.choice([1, 2, 3, 7, 10, 12], size=int(rng.integers(1, 4)), replace=False).tolist())      # replica numbers with differing digit counts
     cl = {k: [int(f) for f in np.cumsum(rng.integers(1, 4, size=int(rng.integers(5, 10)))) + int(rng.integers(0, 20))] for k in idxs}
     tmax = int(rng.integers(2, 5))
     corr = MS5[int(rng.integers(0, len(MS5)))]
@@ -277,8 +277,6 @@ def sfcf_case(rng, i, tmp, ctx):
     cl = {k: [int(f) for f in np.cumsum(rng.integers(1, 4, size=int(rng.integers(5, 9)))) + int(rng.integers(0, 20))] for k in idxs}
     T = int(rng.integers(2, 5))
     specs = [w_sf.bi('f_A', wf=0), w_sf.bi('f_A', wf=1), w_sf.bb('f_1', wf=0, wf2=0), w_sf.bb('f_1', wf=0, wf2=1)]
-    if appended:
-        specs = [w_sf.bi('f_A', wf=0), w_sf.bb('f_1', wf=0, wf2=0)]
     which = int(rng.integers(0, len(specs)))
     spec = specs[which]
     replicas = {}
@@ -314,6 +312,10 @@ def sfcf_case(rng, i, tmp, ctx):
         rng.shuffle(reps_arg)
         if 'files' not in kw:
             kw['replica'] = reps_arg
+    par = {'im': im}
+    if rng.random() < 0.3:
+        kw['ens_name'] = 'E'                   # the caller states the ensemble name; the replica part still comes from the file / directory name
+        par['ens_name'] = 'E'
     with shuffled_listing(rng, shuffle):
         r = quiet(lambda: pe.input.sfcf.read_sfcf(d, 'tst', spec.name, quarks=spec.quarks, corr_type=spec.corr_type, noffset=spec.offset, wf=spec.wf,
                                                    wf2=spec.wf2 or 0, version=version, silent=True, **kw))
@@ -322,7 +324,7 @@ def sfcf_case(rng, i, tmp, ctx):
     cid = 'sfcf-%04d-v%s-r%s-%s-wf%d%d-%s-%s%s%s' % (i, version, '_'.join(map(str, idxs)), spec.name, spec.wf, spec.wf2 or 0, 'im' if im else 're', sel['k'],
                                                   '-replica' if 'replica' in kw else '', '-shuf' if shuffle else '')
     ctx.nontrivial.add(('sfcf', version, tuple(idxs), which, im, shuffle, sel['k'], 'replica' in kw))
-    return [{'id': cid, 'ev': 'read', 'fmt': 'sfcf', 'reps': reps, 'par': {'im': im}, 'sel': sel, 'res': res_series(objs)}]
+    return [{'id': cid + ('-ensname' if 'ens_name' in par else ''), 'ev': 'read', 'fmt': 'sfcf', 'reps': reps, 'par': par, 'sel': sel, 'res': res_series(objs)}]
 
 
 def hd5_case(rng, i, tmp, ctx):
@@ -366,8 +368,8 @@ def t0_case(rng, i, tmp, ctx):
     xs = sorted(set(xs))
     K = len(xs)
     where = str(rng.choice(['middle', 'end', 'end', 'start']))
-    zc = K - int(rng.integers(1, fr + 1)) if where == 'end' else fr if where == 'start' else int(rng.integers(fr, K - fr))
-    zc = min(max(zc, fr), K - 1)
+    zc = K - int(rng.integers(1, fr + 1)) if where == 'end' else int(rng.integers(1, fr + 1)) if where == 'start' else int(rng.integers(fr, K - fr))
+    zc = min(max(zc, 1), K - 1)          # within fit_range points of either end as well
     troot = 0.5 * (xs[zc - 1] + xs[zc]) + 0.2 * (xs[zc] - xs[zc - 1]) * float(rng.uniform(-1, 1))
     slope, curv = float(rng.uniform(0.5, 2.0)), float(rng.uniform(0.0, 0.3))
     d = {}
